@@ -60,6 +60,12 @@ def rand_reg_args(rng):
         a["user_id"] = rng.bytes_(rng.choice([1, 16, 64]))
     if rng.random() < 0.1:
         a["user_id"] = b""
+    if rng.random() < 0.25:
+        # user handles that are themselves text: the user name, an account number, an e-mail address, a UUID, a URL - an RP's
+        # choice; they are bytes to hand through
+        a["user_id"] = rng.choice([a["user_name"].encode("utf-8"), b"100183", b"x@y.zz", b"svc.backup@corp.example", b"alice@example.com",
+                                   b"6f9619ff-8b86-d011-b42d-00c04fc964ff", b"https://example.com/u/1", b"admin", b"null", b"0", b" ",
+                                   b"user-0001", "\u30e6\u30fc\u30b6\u30fc".encode("utf-8")])
     if rng.random() < 0.5:
         a["user_display_name"] = rng.choice(["Alice A.", "", "ボブ"] + ODD_TEXT)
     if rng.random() < 0.5:
